@@ -271,6 +271,15 @@ def check_property(pid, tier='quick', seed=0):
         print('UNDECIDED property=%s obligation=%s reason=solver unknown, no counter-model in finite scope' % (pid, o['name']))
     for r in errors:
         print('ERROR property=%s function=%s %s' % (pid, r['key'], r['reason'][-1500:]))
+    # thorough tier: path-level vacuity audit of every function of the property (a path condition that became
+    # contradictory proves everything after it vacuously; see pyvc/audit.py)
+    audit_info = None
+    if tier == 'thorough':
+        audit_info = run_audit(keys)
+        for (k, l, ln, h) in audit_info['unexpected']:
+            print('UNDECIDED property=%s function=%s reason=vacuous path: obligation %s (line %s) has a contradictory '
+                  'path condition, closed by: %s' % (pid, k, l, ln, h[:160]))
+            undecided.append(({'key': k}, {'name': '%s/%s' % (k, l)}))
     # bounded stand-ins registered for this property
     bounded = run_bounded(pid, tier, seed)
     for b in bounded:
@@ -283,6 +292,10 @@ def check_property(pid, tier='quick', seed=0):
     ev = build_evidence(pid, tier, seed, results, total, discharged, backends, solver_time, known_lines,
                         violations, undecided_funcs, undecided, errors, bounded, wall)
     ev['coverage']['known_finding_obligations'] = n_known_obl
+    if audit_info is not None:
+        ev['coverage']['vacuity_audit'] = dict(paths=audit_info['paths'], closed_allowed=audit_info['allowed'],
+                                               closed_unexpected=len(audit_info['unexpected']),
+                                               undetermined=audit_info['unknown'])
     evdir = os.environ.get('PYVC_EVIDENCE_DIR') or os.path.join(HERE, 'evidence')
     os.makedirs(evdir, exist_ok=True)
     with open(os.path.join(evdir, pid + '.json'), 'w') as f:
@@ -302,6 +315,32 @@ def check_property(pid, tier='quick', seed=0):
     if undecided or undecided_funcs:
         return 2
     return 0
+
+
+def _audit_one(key):
+    from . import audit
+    try:
+        return audit.audit(key)
+    except Exception as e:
+        return ([(key, 'exploration', 0, 'audit failed: %s' % e)], 0, 0)
+
+
+def run_audit(keys):
+    from . import audit
+    allow = audit.load_allow()
+    ctx = multiprocessing.get_context('fork')
+    with ctx.Pool(min(16, max(1, len(keys)))) as pool:
+        res = pool.map(_audit_one, keys, chunksize=1)
+    out = dict(paths=0, unknown=0, allowed=0, unexpected=[])
+    for closed, n, unk in res:
+        out['paths'] += n
+        out['unknown'] += unk
+        for (k, l, ln, h) in closed:
+            if audit.allowed(allow, k, l):
+                out['allowed'] += 1
+            else:
+                out['unexpected'].append((k, l, ln, h))
+    return out
 
 
 def confirm_known(kf, grp, tier):
